@@ -57,6 +57,8 @@ type fnSig struct {
 	opaques []fnKey
 	// fifth part: the interface methods the function (transitively) calls — parameters as well
 	imeths []imKey
+	// code_opq.go: the opaque state-passing callees the function (transitively) calls — parameters as well
+	sps []spKey
 	// code_parse.go: the local aliases of byte slices found so far (carried from the probe pass to the
 	// emitting pass, so that a write that textually precedes the aliasing statement in a loop is seen)
 	aliases []sliceAlias
@@ -830,7 +832,9 @@ func (c *codegen) multiAssign(x *ast.AssignStmt) []string {
 	}
 	var vals []string
 	var types []gtype
-	if irecv, ik, isIface := c.ifaceCallee(call); isIface {
+	if sk, srecv, isSP := c.spCalleeOf(call); isSP { // code_opq.go
+		vals, types = c.spCall(sk, srecv, call, false)
+	} else if irecv, ik, isIface := c.ifaceCallee(call); isIface {
 		vals, types = c.ifaceCall(irecv, ik, call)
 	} else {
 		k, recv, ok := c.calleeOf(call)
@@ -1008,6 +1012,9 @@ func (c *codegen) loopStmt(x ast.Stmt, bodyStmt *ast.BlockStmt, rest []ast.Stmt,
 	}
 	for _, o := range c.cur.sig.opaques {
 		callParts = append(callParts, o.name)
+	}
+	for _, o := range c.cur.sig.sps { // code_opq.go
+		callParts = append(callParts, o.param())
 	}
 	for _, m := range c.cur.sig.imeths {
 		callParts = append(callParts, m.param())
@@ -1606,7 +1613,7 @@ func (c *codegen) ret2(x *ast.ReturnStmt) []string {
 // second pass emits it.
 func (c *codegen) function2(k fnKey) fnOut {
 	_, probe := c.gen2(k, &fnSig{}, true)
-	flags := &fnSig{monadic: probe.monadic, grow: probe.grow, fuel: probe.fuel, opaques: probe.opaques, imeths: probe.imeths, aliases: probe.aliases}
+	flags := &fnSig{monadic: probe.monadic, grow: probe.grow, fuel: probe.fuel, opaques: probe.opaques, imeths: probe.imeths, sps: probe.sps, aliases: probe.aliases}
 	for _, p := range probe.params {
 		flags.params = append(flags.params, sparam{name: p.name, out: p.out})
 	}
@@ -1618,7 +1625,7 @@ func (c *codegen) function2(k fnKey) fnOut {
 func (c *codegen) gen2(k fnKey, flags *fnSig, probe bool) (fnOut, *fnSig) {
 	fd := c.fns[k]
 	sig := &fnSig{monadic: flags.monadic, grow: flags.grow, fuel: flags.fuel, opaques: append([]fnKey{}, flags.opaques...),
-		imeths: append([]imKey{}, flags.imeths...), aliases: append([]sliceAlias{}, flags.aliases...)}
+		imeths: append([]imKey{}, flags.imeths...), sps: append([]spKey{}, flags.sps...), aliases: append([]sliceAlias{}, flags.aliases...)}
 	f := &fnCtx{key: k, fd: fd, used: map[string]bool{}, errSiteOf: map[token.Pos]int{}, sig: sig, probe: probe, ptrVars: map[*varInfo]bool{}}
 	prev := c.cur // restored also while a refusal unwinds through the caller's frames
 	c.cur = f
@@ -1862,6 +1869,7 @@ func (c *codegen) assignedOuter2(at ast.Node, lists ...[]ast.Stmt) []string {
 			}
 			if c.phase5 {
 				c.markIfaceEffects(call, local, mark)
+				c.markSPEffects(call, local, mark) // code_opq.go
 			}
 			switch f := call.Fun.(type) {
 			case *ast.SelectorExpr:
